@@ -3,7 +3,7 @@
 From Coq Require Import List ZArith Bool Lia.
 Import ListNotations.
 From OV Require Import C01.Codec C01.CodecProofs C01.Builtins C01.BuiltinsProofs C01.VariantProofs
-  C01.Types C01.TypesProofs C01.Model.
+  C01.Types C01.TypesProofs C01.Argument C01.ArgumentProofs C01.Model.
 Open Scope Z_scope.
 
 Definition is_none {A} (x : option A) : bool := match x with None => true | Some _ => false end.
@@ -155,9 +155,40 @@ Proof.
   rewrite starts_with_app. cbn [app]. apply Z.eqb_refl.
 Qed.
 
+Lemma fits_chk_arg o a : lim_ok o -> is_none (chk_arg o a) = fits_arg o a.
+Proof.
+  intros Hl. destruct a as [name dt rank dims desc]. unfold chk_arg, fits_arg.
+  rewrite !is_none_seq, fits_chk_ustr, fits_chk_nodeid, (fits_chk_scalar o O desc Hl), !andb_assoc.
+  f_equal. f_equal. destruct (if 0 <? rank then dims else Some []) as [ds|]; [|reflexivity].
+  unfold chk_array, zlen. rewrite chk_list_none.
+  destruct (Z.ltb_spec (max_arr o) (Z.of_nat (length ds))); destruct (Z.leb_spec (Z.of_nat (length ds)) (max_arr o));
+    try reflexivity; lia.
+Qed.
+
+Lemma oracle_arg_holds a o rest : wf_arg a -> plain o ->
+  oracle_arg a o ([len_arg a; zlen (enc_arg a)] ++ enc_arg a ++ report_arg o (enc_arg a ++ rest)) = true.
+Proof.
+  intros Hw (Ho & Hd & Hl). destruct (arg_codec_ok a Hw) as (L & _ & D).
+  unfold arg_codec in *. cbn [enc dec blen wf chk norm] in *.
+  unfold oracle_arg. cbn [app]. rewrite skipn_zlen, L, Z.eqb_refl.
+  assert (H0 : (0 <=? zlen (enc_arg a)) = true) by (apply Z.leb_le; unfold zlen; lia).
+  assert (H1 : (zlen (enc_arg a) <=? zlen (enc_arg a ++ report_arg o (enc_arg a ++ rest))) = true).
+  { apply Z.leb_le. unfold zlen. rewrite app_length. lia. }
+  rewrite H0, H1. cbn [andb]. unfold report_arg. rewrite (D o O rest Ho).
+  rewrite <- (fits_chk_arg o a Hl).
+  destruct (chk_arg o a) as [e|]; cbn [is_none]; [reflexivity|].
+  replace (zlen (enc_arg a ++ rest) - zlen rest) with (zlen (enc_arg a))
+    by (unfold zlen; rewrite app_length; lia).
+  match goal with |- context [starts_with ?p ?l] =>
+    replace l with (p ++ ([zlen (enc_arg (norm_arg a))] ++ enc_arg (norm_arg a)))
+      by (cbn [app]; rewrite <- ?app_assoc; reflexivity) end.
+  rewrite starts_with_app. cbn [app]. apply Z.eqb_refl.
+Qed.
+
 Theorem oracle_holds c : valid c -> known c = 0 -> oracle c (Model.run c) = true.
 Proof.
-  intros Hv _. destruct c as [t v o rest|t o bs]; cbn [valid oracle Model.run] in *.
+  intros Hv _. destruct c as [t v o rest|t o bs|a o rest]; cbn [valid oracle Model.run] in *;
+    [| |destruct Hv as [Hw Hp]; apply oracle_arg_holds; assumption].
   - destruct Hv as [Hw Hp]. apply oracle_val_holds; assumption.
   - destruct Hv as (Hp & Hwf & Hnp). unfold oracle_bytes.
     destruct (Codec.run (dec_ty t o (depth0 o)) bs) as [[v rest]|e|p] eqn:E.
